@@ -149,7 +149,9 @@ Record ecase := {
   e_exchs : list exch;      (* the exchanges whose response arrived completely *)
   e_stream : str;           (* every byte the client received on the connection *)
   e_closed : bool;          (* the proxy closed the connection *)
-  e_broken : bool }.        (* the origin's reply to the next exchange (not in e_exchs) broke after its head had been
+  e_broken : bool;
+  e_must_complete : bool }. (* scenario whose every exchange must be answered on this one connection: nothing in it
+                               (client version, Connection options, framing of the origin) permits the proxy to close *)        (* the origin's reply to the next exchange (not in e_exchs) broke after its head had been
                                sent (malformed chunk-size line, corrupt gzip the proxy had solicited): e_stream ends
                                with what the proxy had relayed of it *)
 
@@ -211,7 +213,8 @@ Definition ecase_prop_ok (c : ecase) : bool :=
       (if e_broken c
        then (* a response that cannot be completed must be the last thing on the connection *)
             e_closed c
-       else negb (nonempty rest) && ((N.of_nat (length (e_exchs c)) =? e_want c) || e_closed c))
+       else negb (nonempty rest) &&
+            ((N.of_nat (length (e_exchs c)) =? e_want c) || (e_closed c && negb (e_must_complete c))))
   | None => false
   end.
 
@@ -240,7 +243,8 @@ Definition ecase_absent_ok (c : ecase) : bool :=
    0 none, 1 the stream is not a sequence of complete responses / bytes are left over / a wanted
    exchange was not answered although the connection stayed open, 2 status code or reason phrase,
    3 an end-to-end field is missing or changed, 4 a hop-by-hop field reaches the client, 5 body, 6 trailers,
-   7 the connection was kept after a response that could not be completed *)
+   7 the connection was kept after a response that could not be completed,
+   8 the proxy closed a connection on which every exchange had to be answered *)
 Definition obs_why (o : obs) (x : xexp) : N :=
   if negb ((o_code o =? x_code x) && match x_reason x with Some t => str_eqb (o_reason o) t | None => true end) then 2
   else if negb (forallb (values_match (o_fields o)) (x_fields x)) then 3
@@ -261,6 +265,7 @@ Definition ecase_why (c : ecase) : N :=
       else if nonempty rest then 1
       else let w := all_why os (e_exchs c) in
            if negb (w =? 0) then w
-           else if (N.of_nat (length (e_exchs c)) =? e_want c) || e_closed c then 0 else 1
+           else if (N.of_nat (length (e_exchs c)) =? e_want c) then 0
+           else if e_closed c then (if e_must_complete c then 8 else 0) else 1
   | None => 1
   end.
